@@ -14,7 +14,7 @@ def run_probe(c, cff, probe):
     shutil.copy(REPO + "/internal/tests/go.sum", os.path.join(root, "go.sum"))
     r = subprocess.run([cff, "-quiet", "kf/" + probe], cwd=root, env=GOENV, capture_output=True, text=True, timeout=300)
     gen = os.path.join(root, probe, probe + "_gen.go")
-    res = dict(rc=r.returncode, out=(r.stdout + r.stderr)[-2000:], crashed="panic:" in (r.stdout + r.stderr) and "goroutine " in (r.stdout + r.stderr),
+    res = dict(rc=r.returncode, out=(r.stdout + r.stderr)[-2000:], crashed=("panic:" in (r.stdout + r.stderr) or "fatal error:" in (r.stdout + r.stderr)) and "goroutine " in (r.stdout + r.stderr),
                build="", surviving=0, generated=os.path.exists(gen))
     if res["generated"]:
         b = subprocess.run(["go", "build", "./" + probe + "/"], cwd=root, env=GOENV, capture_output=True, text=True, timeout=300)
